@@ -1,6 +1,7 @@
 package main
 
 import (
+	"strings"
 	"encoding/json"
 	"flag"
 	"fmt"
@@ -63,6 +64,10 @@ func main() {
 		os.Exit(runTranslate(*translate))
 	}
 	if *genvec != "" {
+		if strings.HasSuffix(*genvec, "format2.json") {
+			writeVectors2(*genvec, 20260930)
+			return
+		}
 		writeVectors(*genvec, 20260929)
 		return
 	}
